@@ -312,7 +312,7 @@ def body(chk, db, cfgname):
                 shp = loop_shape(f, ctx, j)
                 if shp["kind"] == "index" and shp["rel"] == "<" and shp["bound"][:2] == ind[:2] and not shp["exits"]:
                     st = value_key(f, ctx, envs, f.nodes[f.nodes[j]["init"]]["vars"][0]["init"], j) if f.nodes[j].get("init") is not None else None
-                    flips = [x for x, m_ in f.walk(shp["body"]) if m_["k"] == "bin" and m_["op"] == "*=" and ctx.key(m_["r"]) in (("lit", -1), ("un", "-", ("lit", 1)))]
+                    flips = [x for x, m_ in f.walk(shp["body"]) if is_sign_flip(ctx, m_)]
                     if st == ("lit", 0) and len(flips) == 1:
                         ffa = at.get(f.cfg.pos1(flips[0]), frozenset())
                         bj = ("op", "[]", bra, shp["var"])
@@ -512,6 +512,23 @@ def body(chk, db, cfgname):
                     else:
                         r6.unknown(site, g.loc(), "hand-written comparison loop: both ranges are exhausted where it answers 'equal', the element-wise part is not analysed", cfgname)
     chk.undecided.append("correctness of the recursive bubble sort for every polynomial (associativity, CAR, agreement with Jordan-Wigner matrices) — needs an inductive proof, not a structural rule")
+
+
+def is_sign_flip(ctx, m_):
+    """x *= -1   |   x = -x   |   x = x * -1   |   x = -1 * x"""
+    neg1 = (("lit", -1), ("un", "-", ("lit", 1)))
+    if m_["k"] != "bin":
+        return False
+    if m_["op"] == "*=" and ctx.key(m_["r"]) in neg1:
+        return True
+    if m_["op"] == "=":
+        l = ctx.key(m_["l"], inline=False)
+        r = ctx.key(m_["r"], inline=False)
+        if r == ("un", "-", l):
+            return True
+        if r[0] == "op" and r[1] == "*" and len(r) == 4 and ((r[2] == l and r[3] in neg1) or (r[3] == l and r[2] in neg1)):
+            return True
+    return False
 
 
 def stmt_before(f, a, b):
